@@ -227,7 +227,7 @@ def run_cases(ctx, cases, mode='nrt'):
     inputs = [dict(ids=list(range(i, min(n, i + per))), mode=mode,
                    cases=[dict(prog=c['prog'], conds=c['conds'], flows=c['flows'], hist=c['hist']) for c in cases[i:i + per]])
               for i in range(0, n, per)]
-    outs = ctx.run_drivers(DRIVER, inputs, mode=mode)
+    outs = ctx.run_drivers(DRIVER, inputs, mode=mode, timeout=900 if ctx.quick else 3600)
     traces = [t for o in outs for t in o['traces']]
     if len(traces) != n:
         raise MachineryError('driver returned %d traces for %d cases' % (len(traces), n))
